@@ -92,28 +92,43 @@ def dedup : List Key → List Key
 
 abbrev Triple := Key × Option Key × Value
 
-/-- `do_unflatten_entries` (and `do_unflatten`, `do_unflatten_entry` inlined).
+/-- `do_unflatten(value)` given the recursion `recur` into `do_unflatten_entries`: only objects
+    are unflattened (not arrays, nor objects inside arrays), and only when `recursive`. -/
+def leafWith (recur : Entries → Option VMap) (recursive : Bool) (v : Value) : Option Value :=
+  if recursive then
+    match v with
+    | .obj m => (recur (toList m)).map .obj
+    | v => some v
+  else some v
+
+/-- the value built for one group of entries sharing a head: a single entry without rest is a
+    top-level value; a single entry with a rest is `do_unflatten_entry` (split the rest at every
+    separator, nest); otherwise the entries that have a rest are unflattened again (an entry
+    without rest is dropped: "a": 3 next to "a.b": 2). -/
+def groupValueWith (recur : Entries → Option VMap) (sep : Key) (recursive : Bool) :
+    List Triple → Option Value
+  | [(_, none, v)] => leafWith recur recursive v
+  | [(_, some rest, v)] => (leafWith recur recursive v).map (nestSingle (splitAll sep rest))
+  | grp => (recur (grp.filterMap fun t => t.2.1.map fun r => (r, t.2.2))).map .obj
+
+def triplesOf (sep : Key) (es : Entries) : List Triple :=
+  es.map fun e => ((headRest sep e.1).1, (headRest sep e.1).2, e.2)
+
+/-- one level of `do_unflatten_entries`: group by head (`into_group_map_by`), build each group's
+    value, collect into a `BTreeMap`. -/
+def unflattenStep (recur : Entries → Option VMap) (sep : Key) (recursive : Bool) (es : Entries) :
+    Option VMap :=
+  let triples := triplesOf sep es
+  ((dedup (triples.map (·.1))).mapM fun h =>
+    (groupValueWith recur sep recursive (triples.filter fun t => t.1 == h)).map fun v => (h, v)).map ofList
+
+/-- `do_unflatten_entries` (with `do_unflatten`, `do_unflatten_entry` inlined).
     `fuel` bounds the recursion depth; `none` = depth exhausted, which on the real code is the
     stack overflow of `separator: ""` with two or more entries (DESIGN §8 #48). -/
 def unflattenEntries : Nat → Key → Bool → Entries → Option VMap
   | 0, _, _, _ => none
   | fuel + 1, sep, recursive, es =>
-    let triples : List Triple := es.map fun e => ((headRest sep e.1).1, (headRest sep e.1).2, e.2)
-    -- `do_unflatten(value)`
-    let leaf : Value → Option Value := fun v =>
-      if recursive then
-        match v with
-        | .obj m => (unflattenEntries fuel sep recursive (toList m)).map .obj
-        | v => some v
-      else some v
-    let groupValue : Key → Option Value := fun h =>
-      match triples.filter (fun t => t.1 == h) with
-      | [(_, none, v)] => leaf v
-      | [(_, some rest, v)] => (leaf v).map (nestSingle (splitAll sep rest))
-      | grp =>
-        (unflattenEntries fuel sep recursive
-          (grp.filterMap fun t => t.2.1.map fun r => (r, t.2.2))).map .obj
-    ((dedup (triples.map (·.1))).mapM fun h => (groupValue h).map fun v => (h, v)).map ofList
+    unflattenStep (fun es' => unflattenEntries fuel sep recursive es') sep recursive es
 
 mutual
   /-- size of a value: number of nodes plus bytes of all object keys -/
